@@ -61,7 +61,7 @@ def schema_kinds(s, out=None):
 
 @st.composite
 def schemas(draw, max_depth=3, windows=True, top=True):
-    leaves = [("TS", "int"), ("TS", "int"), ("TS", "str"), ("TS", "bool"), ("TSS", "int")]
+    leaves = [("TS", "int"), ("TS", "int"), ("TS", "str"), ("TS", "bool"), ("TSS", draw(st.sampled_from(["int", "int", "str"])))]
     if windows:
         p = draw(st.integers(1, 5))
         leaves.append(("TSW", "int", p, draw(st.integers(1, p))))
@@ -71,9 +71,9 @@ def schemas(draw, max_depth=3, windows=True, top=True):
     if k == "leaf":
         return draw(st.sampled_from(leaves))
     if k == "TSS":
-        return ("TSS", "int")
+        return ("TSS", draw(st.sampled_from(["int", "int", "str"])))
     if k == "TSD":
-        return ("TSD", "int", draw(schemas(max_depth - 1, windows=False, top=False)))
+        return ("TSD", draw(st.sampled_from(["int", "int", "str"])), draw(schemas(max_depth - 1, windows=False, top=False)))
     if k == "TSL":
         return ("TSL", draw(schemas(max_depth - 1, windows=windows, top=False)), draw(st.integers(1, 3)))
     n = draw(st.integers(1, 3))
@@ -464,7 +464,49 @@ def history(draw, schema, start, horizon, opts=None, max_cycles=10):
         ops = [o for o in (gen_op(draw, m, t, opts) for _ in range(n)) if o is not None]
         if ops:
             script.append([t, ops])
-    return script
+    return stringify(script, schema)
+
+
+def stringify(script, schema):
+    """histories are generated over integer elements/keys; where the schema says `str` they are renamed to strings"""
+    def has_str(sc):
+        k = sc[0]
+        if k == "TSS":
+            return sc[1] == "str"
+        if k == "TSD":
+            return sc[1] == "str" or has_str(sc[2])
+        if k == "TSL":
+            return has_str(sc[1])
+        if k == "TSB":
+            return any(has_str(c) for _, c in sc[1])
+        return False
+
+    def nm(x):
+        return f"k{x}"
+
+    def conv(op, sc):
+        if op is None:
+            return op
+        k = op["k"]
+        if k == "S" and sc[0] == "TSS" and sc[1] == "str":
+            return {"k": "S", "ops": [[o[0], nm(o[1])] if len(o) > 1 else list(o) for o in op["ops"]]}
+        if k == "D" and sc[0] == "TSD":
+            out = []
+            for o in op["ops"]:
+                o = list(o)
+                if len(o) > 1 and sc[1] == "str":
+                    o[1] = nm(o[1])
+                if o[0] == "at":
+                    o[2] = conv(o[2], sc[2])
+                out.append(o)
+            return {"k": "D", "ops": out}
+        if k == "i":
+            child = sc[1] if sc[0] == "TSL" else sc[1][op["i"]][1]
+            return dict(op, op=conv(op["op"], child))
+        return op
+    if not has_str(schema):
+        return script
+    return [[t, [conv(o, schema) for o in ops]] for t, ops in script]
 
 
 def replay(schema, script, upto=None):
